@@ -17,7 +17,7 @@ RULE = ("alias chains over one register: bounded-exhaustive over register sizes 
 ASSUMPTIONS = ["model arithmetic on declarations (vf/meaning.py core_from_sx + Evaluator.elems)",
                "zero steps and out-of-range slices are not generated here (C14)"]
 TIERS = {"quick": {"shards": 8, "budget_s": 240}, "thorough": {"shards": 16, "budget_s": 600}}
-REQUIRE = {"consumer:whole-register-argument": 5000, "consumer:resolution-in-context": 300, "consumer:resolution-in-context:argument-handed-to-an-inner-macro": 100, "invalid-reference:consumers-observed": 1000, "chain-with-slice-counting-down": 500, "references-checked": 2000, "consumer:resolve_qubit": 2000, "consumer:fill_in_map": 2000,
+REQUIRE = {"same-statement-text-before-a-macro-whose-parameter-has-the-index-name": 40, "consumer:whole-register-argument": 5000, "consumer:resolution-in-context": 300, "consumer:resolution-in-context:argument-handed-to-an-inner-macro": 100, "invalid-reference:consumers-observed": 1000, "chain-with-slice-counting-down": 500, "references-checked": 2000, "consumer:resolve_qubit": 2000, "consumer:fill_in_map": 2000,
            "consumer:used_qubits": 2000, "consumer:emulator": 1000, "consumer:pygsti": 500, "style:let": 200, "style:override": 200,
            "style:default": 200, "depth>=2": 500, "position:macro-arg": 200, "position:macro-body": 200, "position:macro-index": 200, "position:single-in-shadowing-macro": 200}
 
@@ -131,6 +131,7 @@ def build_program(n, chain, style, rng, offset=0, ov=None):
         pos = ("top", "block", "loop", "macro-body", "macro-arg", "single", "macro-index", "single-in-shadowing-macro", "macro-nested-index")[(i + offset) % 9]
         refs.append((pos, i, ref))
     macros = []
+    tail = []
     for pos, i, ref in refs:
         g = ("gate", "X", ref)
         if pos == "top":
@@ -152,7 +153,14 @@ def build_program(n, chain, style, rng, offset=0, ov=None):
             mname = "mi%d" % i
             # the parameter may carry the name of a let that a slice bound uses: inside the macro the name means the
             # parameter, in the alias declarations it still means the let
-            pname = rng.choice(sorted(lets)) if (lets and rng.random() < 0.6) else "k"
+            usable = [nm for nm in sorted(lets) if isinstance((ov or {}).get(nm, lets[nm]), int) and 0 <= (ov or {}).get(nm, lets[nm]) < src_len]
+            pname = rng.choice(usable) if (usable and rng.random() < 0.5) else (rng.choice(sorted(lets)) if (lets and rng.random() < 0.5) else "k")
+            vv = (ov or {}).get(pname, lets.get(pname))
+            if pname in lets and isinstance(vv, int) and not isinstance(vv, bool) and 0 <= vv < src_len and rng.random() < 0.8:
+                # the very same statement text, written BEFORE the macro in a macro without parameters: there the name is the
+                # constant (a statement built for one binding of a name is not the statement for another)
+                macros.append(("macro", "mp%d" % i, ("sequential_block", ("gate", "X", ("array_item", final, pname)))))
+                tail += [("gate", "prepare_all"), ("gate", "mp%d" % i), ("gate", "measure_all")]  # after the regular sections: section j <-> element j
             macros.append(("macro", mname, pname, ("sequential_block", ("gate", "X", ("array_item", final, pname)))))
             sec = [("gate", mname, ref[2])]
         elif pos == "macro-nested-index":
@@ -178,7 +186,7 @@ def build_program(n, chain, style, rng, offset=0, ov=None):
             sec = [("gate", "X", sname)]
         body += [("gate", "prepare_all")] + sec + [("gate", "measure_all")]
     header = [("let", k, v) for k, v in lets.items()] + [("register", "q", size_expr)] + maps + singles
-    return ("circuit",) + tuple(header) + tuple(macros) + tuple(body), refs
+    return ("circuit",) + tuple(header) + tuple(macros) + tuple(body) + tuple(tail), refs
 
 
 def expected_indices(prog, ov=None):
@@ -334,6 +342,20 @@ def judge(case):
             fails.append(("fill_in_map-malformed-result", {"error": str(ex)[:200]}))
         except M.MeaningError as ex:
             fails.append(("fill_in_map-result-unresolvable:" + ex.kind, {"error": str(ex)}))
+    # (2b) the parser asked to do both itself (expand_let_map with the override dictionary): the same qubits
+    if ov:
+        o = lib.outcome(lib.parse, sx.to_text(prog), X.native(), expand_let_map=True, override_dict=dict(ov))
+        if o[0] == "ok":
+            xs3 = x_statements(lib.expand_macros(o[1])) if not has_param_index else []
+            if len(xs3) == len(ks):
+                info["pa"] = len(ks)
+                for st, k in zip(xs3, ks):
+                    o3 = lib.outcome(list(st.parameters.values())[0].resolve_qubit)
+                    if o3[0] != "ok" or not o3[1][0].fundamental or o3[1][1] != k:
+                        fails.append(("resolve_qubit-wrong:parser-option-expand_let_map-with-overrides", {"expected": k, "got": str(o3[1:3])[:100], "ov": ov}))
+                        break
+        elif o[0] == "exc":
+            fails.append(("parser-option-expand_let_map-raised:" + o[1], {"error": o[2], "ov": ov}))
     # (4) emulator -- one backend object serves every circuit of this process (as a user sweeping programs would)
     np.random.seed(1)
     o = lib.budgeted(lib.run, 50000 + 3000 * len(ks), c_run, backend=shared_backend())
@@ -608,6 +630,7 @@ def process(ctx, case, feats):
     rec.count("consumer:whole-register-argument", info.get("whole", 0))
     rec.count("consumer:fill_in_map-of-whole-register-argument", info.get("whole_fill", 0))
     rec.count("consumer:resolve_qubit:macros-expanded-before-lets", info.get("ml", 0))
+    rec.count("consumer:resolve_qubit:parser-option-expand_let_map-with-overrides", info.get("pa", 0))
     if "gsti_unavailable" in info:
         rec.note("pygsti_unavailable", info["gsti_unavailable"])
     rec.count("style:" + case["style"])
@@ -616,6 +639,8 @@ def process(ctx, case, feats):
     if feats.get("counting-down"):
         rec.count("chain-with-slice-counting-down")
     rec.count("depth=%d" % len(case["chain"]))
+    rec.count("same-statement-text-before-a-macro-whose-parameter-has-the-index-name",
+              sum(1 for s_ in case_prog(case)[1:] if s_[0] == "macro" and s_[1].startswith("mp")))
     for pos in feats["positions"]:
         rec.count("position:" + pos)
     for clause, detail in fails:
